@@ -222,7 +222,13 @@ impl Directive {
                 if !context.last_segment().unwrap().borrow().is_empty() {
                     context.add_segment(Segment::new(new_type));
                 } else {
-                    context.last_segment().unwrap().borrow_mut().t = new_type;
+                    let last_segment = context.last_segment().unwrap();
+                    let mut last_segment = last_segment.borrow_mut();
+                    if last_segment.t != new_type {
+                        // an .org given for another memory does not carry over
+                        last_segment.address = 0;
+                    }
+                    last_segment.t = new_type;
                 }
             }
             Directive::Device => {
